@@ -616,10 +616,23 @@ def rule_mod3(prog, rep, tier, parsers=("parse.class_", "parse.function", "parse
         cfg = CFG(fi.node)
         # locals holding fresh trees count as owned roots from their definition
         ws = _field_writes_on(fi, {root} | {t.id for st in ast.walk(fi.node) if isinstance(st, ast.Assign) for t in st.targets if isinstance(t, ast.Name)})
-        for st, base in ws:
+        for st, base0 in ws:
             n += 1
+            # a local that is a view into another tree (`arguments = function_def.args`): the write goes to that tree,
+            # and what matters is whether *it* was a copy at the point the view was taken
+            base, site = base0, st
+            for _ in range(3):
+                defs_ = [s_ for s_ in ast.walk(fi.node) if isinstance(s_, ast.Assign) and any(isinstance(t_, ast.Name) and t_.id == base for t_ in s_.targets)]
+                if len(defs_) != 1 or base == root:
+                    break
+                core_ = defs_[0].value
+                while isinstance(core_, (ast.Attribute, ast.Subscript)):
+                    core_ = core_.value
+                if not (isinstance(core_, ast.Name) and core_.id != base and core_ is not defs_[0].value):
+                    break
+                base, site = core_.id, defs_[0]
             rebinds = _owning_rebinds(fi, base)
-            node = cfg.node_of(st)
+            node = cfg.node_of(site)
             ok = False
             if rebinds and node is not None:
                 blocked = {cfg.node_of(r) for r in rebinds}
